@@ -29,13 +29,15 @@ enum { FATE_NONE = 0, FATE_EXECED = 1, FATE_FAILED_EARLY = 2, FATE_FAILED_LATE =
 
 struct ghost {
   /* ---- descriptor ledger: bit k describes descriptor k -------------------- */
-  uint32_t open;     /* descriptor is open                                    */
-  uint32_t lib;      /* ... and was opened by the library (subset of open)    */
-  uint32_t cloexec;  /* FD_CLOEXEC                                            */
-  uint32_t nonblock; /* O_NONBLOCK                                            */
-  uint32_t rd, wr;   /* access mode allows reading / writing                  */
-  uint8_t obj[VERIF_NFD];
-  uint8_t next_pipe; /* number of pipes created so far                        */
+  struct {
+    uint32_t open;     /* descriptor is open                                    */
+    uint32_t lib;      /* ... and was opened by the library (subset of open)    */
+    uint32_t cloexec;  /* FD_CLOEXEC                                            */
+    uint32_t nonblock; /* O_NONBLOCK                                            */
+    uint32_t rd, wr;   /* access mode allows reading / writing                  */
+    uint8_t obj[VERIF_NFD];
+    uint8_t next_pipe; /* number of pipes created so far                        */
+  } fds;
   /* ---- the one child this handle may own --------------------------------- */
   int child_pid;      /* 0: never forked                                      */
   bool child_live;    /* forked and not yet reaped                            */
@@ -64,20 +66,24 @@ struct ghost {
   /* ---- clock ---------------------------------------------------------------- */
   int64_t now;          /* virtual CLOCK_REALTIME in ms, monotone             */
   /* ---- errors, faults, effort ---------------------------------------------- */
-  int err;              /* errno                                              */
-  int faults;           /* injected failures so far                           */
-  int first_errno;      /* errno of the first injected failure                */
-  int last_fault;       /* errno of the most recent injected failure          */
-  int os_calls;         /* calls into the OS layer                            */
+  struct {
+    int err;              /* errno                                              */
+    int faults;           /* failed calls the library has to react to, so far   */
+    int first_errno;      /* errno of the first of them                         */
+    int last_fault;       /* errno of the most recent one                       */
+    int os_calls;         /* calls into the OS layer                            */
+  } e;
   bool may_block;       /* an OS contract that is allowed to sleep was used   */
   /* ---- last read / write / poll (to tie library results to kernel results) - */
-  int rd_calls, rd_fd; const void *rd_buf; size_t rd_n; long rd_ret; int rd_errno;
-  int wr_calls, wr_fd; const void *wr_buf; size_t wr_n; long wr_ret; int wr_errno;
-  int poll_calls, poll_timeout, poll_ret; int64_t poll_at;
-  uint32_t poll_fds;    /* descriptors handed to the last poll                */
-  uint32_t poll_ready;  /* ... of which reported with revents != 0            */
-  unsigned long poll_nfds;
-  int poll_fdv[12]; short poll_evv[12]; short poll_rev[12]; /* per slot: fd, events asked, revents */
+  struct { int rd_calls, rd_fd; const void *rd_buf; size_t rd_n; long rd_ret; int rd_errno; } rl;
+  struct { int wr_calls, wr_fd; const void *wr_buf; size_t wr_n; long wr_ret; int wr_errno; } wl;
+  struct {
+    int poll_calls, poll_timeout, poll_ret; int64_t poll_at;
+    uint32_t poll_fds;    /* descriptors handed to the last poll                */
+    uint32_t poll_ready;  /* ... of which reported with revents != 0            */
+    unsigned long poll_nfds;
+    int poll_fdv[12]; short poll_evv[12]; short poll_rev[12]; /* per slot: fd, events asked, revents */
+  } pl;
   /* ---- start-up input cursor (C02) ------------------------------------------ */
   int in_fd; size_t stream_pos;
   /* strdup / path_prepend_cwd / strv_concat provenance */
@@ -129,8 +135,8 @@ extern char **environ;
    large) clauses cheap. All operands are side-effect free. */
 #define FD_OK(fd) (((fd) >= 0) & ((fd) < VERIF_NFD))
 #define BIT(fd) (1u << ((unsigned) (fd) & 31u))
-#define IS_OPEN(fd) ((unsigned) FD_OK(fd) & ((g.open >> ((unsigned) (fd) & 31u)) & 1u))
-#define IS_LIB(fd) ((unsigned) FD_OK(fd) & ((g.lib >> ((unsigned) (fd) & 31u)) & 1u))
+#define IS_OPEN(fd) ((unsigned) FD_OK(fd) & ((g.fds.open >> ((unsigned) (fd) & 31u)) & 1u))
+#define IS_LIB(fd) ((unsigned) FD_OK(fd) & ((g.fds.lib >> ((unsigned) (fd) & 31u)) & 1u))
 /* mask of a descriptor that may be -1 (invalid): 0 then */
 #define MASK_OF(fd) ((unsigned) FD_OK(fd) << ((unsigned) (fd) & 31u))
 /* short-circuit implication: use when b is only safe to evaluate under a */
